@@ -95,5 +95,74 @@ Section CacheTest.
   (* setup(): a candidate setUp path is kept when its feasibility query is not unsat *)
   Definition setup_keeps (cache : bool) (cores : list (list id)) (q : query) : bool :=
     negb (is_unsat id model (setup_solve cache cores q)).
+
+  (* ---------------- any completion order of the solver pool.
+     The main loop (TPath) hands an assertion query to the thread pool and goes on; some time later a worker
+     enters solve_end_to_end for it (TStart j: the look-up sees the cache AS IT IS THEN) and some time after that
+     its done-callback runs (TCb j: output recorded, core learnt).  A stuck path is solved synchronously by the main
+     loop, in whatever state the cache is at that moment.  A schedule is any list of such events; an event that
+     does not apply (unknown job, job already started / not yet started) changes nothing. *)
+  Inductive tevent := TPath (p : tpath) | TStart (j : nat) | TCb (j : nat).
+
+  (* a submitted assertion query: path id, query, output once its worker has run *)
+  Definition tjob := (nat * query * option reply)%type.
+
+  Record sstate := mks { s_t : tstate; s_jobs : list tjob; s_next : nat }.
+  Definition sinit : sstate := mks tinit [] 0.
+
+  Definition start_job (cache : bool) (cores : list (list id)) (j : nat) (l : list tjob) : list tjob :=
+    map (fun b : tjob =>
+           match b with
+           | (i, q, None) => if Nat.eqb i j then (i, q, Some (assert_solve cache cores q)) else b
+           | _ => b
+           end) l.
+
+  (* the first finished job with path id j, and the other jobs *)
+  Fixpoint take_done (j : nat) (l : list tjob) : option (reply * list tjob) :=
+    match l with
+    | [] => None
+    | (i, q, st) :: r =>
+        match (if Nat.eqb i j then st else None) with
+        | Some o => Some (o, r)
+        | None => match take_done j r with
+                  | Some (o, r') => Some (o, (i, q, st) :: r')
+                  | None => None
+                  end
+        end
+    end.
+
+  Definition sched_step (cache : bool) (s : sstate) (e : tevent) : sstate :=
+    match e with
+    | TPath (KAssert, q) => mks (s_t s) (s_jobs s ++ [(s_next s, q, None)]) (S (s_next s))
+    | TPath p => mks (test_step cache (s_t s) p) (s_jobs s) (S (s_next s))
+    | TStart j => mks (s_t s) (start_job cache (t_cores (s_t s)) j (s_jobs s)) (s_next s)
+    | TCb j =>
+        match take_done j (s_jobs s) with
+        | Some (o, l') =>
+            let t := s_t s in
+            mks (mkt (callback id model (t_cores t) o) (t_outs t ++ [o]) (t_stuck t) (t_normal t) (t_skipped t)) l' (s_next s)
+        | None => s
+        end
+    end.
+
+  Definition sched_run (cache : bool) (evs : list tevent) : sstate := fold_left (sched_step cache) evs sinit.
+
+  Fixpoint sched_paths (evs : list tevent) : list tpath :=
+    match evs with
+    | [] => []
+    | TPath p :: r => p :: sched_paths r
+    | _ :: r => sched_paths r
+    end.
+
+  (* run_test's verdict once the pool has drained (thread_pool.shutdown(wait=True)) *)
+  Definition sched_verdict (cache : bool) (evs : list tevent) : option verdict :=
+    let s := sched_run cache evs in
+    match s_jobs s with
+    | [] => Some (verdict_of id model (t_outs (s_t s)) (t_stuck (s_t s)) (t_normal (s_t s)))
+    | _ => None
+    end.
 End CacheTest.
 
+Arguments TPath {id formula} _.
+Arguments TStart {id formula} _.
+Arguments TCb {id formula} _.
